@@ -41,7 +41,7 @@ fn info(tier: Tier) -> CheckInfo {
         id: "C12",
         level: "model_checking",
         rule: format!(
-            "Explicit-state BFS (depth {}) whose state is the real RoutingTable + virtual clock, from 6 initial states (empty; one bucket pre-filled through real add() calls with 19 and with 20 fresh nodes; the same aged 14 and 16 minutes; a 20-node bucket whose head is stale and whose tail is fresh) over a 19-action alphabet: add of new ids into the full bucket / another bucket, re-add of a present id with same address / new port / new IP, an insecure id on the IP of a present secure node and vice versa, a second secure id with the same and with a different 21-bit prefix on one IP, add(self id), remove present/absent, re-key to an id in another bucket class and to the id of a present node, clock steps 1/14/16 min. Every state: no self id, unique ids, bucket key = distance, buckets <= 20, size/iteration/is_empty agree, per-IP Sybil limits, to_bootstrap = non-stale entries. Every add: nothing foreign appears and at most the stale head of a full bucket (or the same-id entry being replaced) disappears.",
+            "Explicit-state BFS (depth {}) whose state is the real RoutingTable + virtual clock, from 6 initial states (empty; one bucket pre-filled through real add() calls with 19 and with 20 fresh nodes; the same aged 14 and 16 minutes; a 20-node bucket whose head is stale and whose tail is fresh) over a 22-action alphabet: add of new ids into the full bucket / another bucket, re-add of a present id with same address / new port / new IP, an insecure id on the IP of a present secure node and vice versa, a second secure id with the same and with a different 21-bit prefix on one IP, an id first seen as insecure on an unrelated IP that later shows up on an occupied IP for which it is secure, add(self id), remove present/absent, re-key to an id in another bucket class and to the id of a present node, clock steps 1/14/16 min. Every state: no self id, unique ids, bucket key = distance, buckets <= 20, size/iteration/is_empty agree, per-IP Sybil limits, to_bootstrap = non-stale entries. Every add: nothing foreign appears and at most the stale head of a full bucket (or the same-id entry being replaced) disappears.",
             depth(tier)
         ),
         assumptions: vec![
@@ -106,9 +106,13 @@ fn build_cfg() -> Cfg {
     let mut f = [0x77u8; 20];
     f[0] = own[0] ^ 0x80;
     let s1 = Pn { id: bep42_id(ip_x, &f, 1), addr: SocketAddrV4::new(ip_x, 1000) };
+    // the id of s2 (secure for ip X, same prefix as s1) first seen on an unrelated IP, where it
+    // is just an insecure id: a tracked id that later moves onto the occupied IP
+    let s2_elsewhere_ip = Ipv4Addr::new(82, 4, 4, 4);
     let mut f2 = [0x66u8; 20];
     f2[0] = own[0] ^ 0x80;
     let s2 = Pn { id: bep42_id(ip_x, &f2, 1), addr: SocketAddrV4::new(ip_x, 1001) }; // same prefix
+    let s2_id = s2.id;
     let s3 = Pn { id: bep42_id(ip_x, &f2, 2), addr: SocketAddrV4::new(ip_x, 1002) }; // other prefix
     let mut ins = fill_id(&own, 50);
     ins[5] = 0x99;
@@ -145,7 +149,9 @@ fn build_cfg() -> Cfg {
         i2,
         s4,
         Pn { id: own, addr: SocketAddrV4::new(Ipv4Addr::new(63, 1, 1, 1), 1) },
+        Pn { id: s2_id, addr: SocketAddrV4::new(s2_elsewhere_ip, 3000) },
     ];
+    assert!(!bep42_valid(&pool[13].id, s2_elsewhere_ip));
     let mut own2 = own;
     own2[0] ^= 0x80; // the far bucket's nodes become near
     let own3 = pool[6].id; // re-key to the id of a node that may be present
@@ -163,6 +169,7 @@ fn build_cfg() -> Cfg {
         Op::Add(10),
         Op::Add(11),
         Op::Add(12),
+        Op::Add(13),
         Op::Remove(3),
         Op::Remove(6),
         Op::RemoveAbsent,
